@@ -23,12 +23,14 @@ theorem OutsExt.of_same {P : Out → Prop} {s s' : Sess} (h : s'.outs = s.outs) 
 theorem OutsExt.emit {P : Out → Prop} (s : Sess) (o : Out) (h : P o) : OutsExt P s (s.emit o) :=
   ⟨[o], rfl, by simp [h]⟩
 
-/-- the kinds of output a reaction helper may produce -/
-structure Reactive (P : Out → Prop) : Prop where
-  write : ∀ i b, P (.write i b)
+/-- the kinds of output a reaction helper may produce: writes go to the tracked connection `p` only -/
+structure Reactive (P : Out → Prop) (p : Option Nat) : Prop where
+  write : ∀ i b, p = some i → P (.write i b)
   lose : ∀ i, P (.lose i)
   est : P .hEstablished
   esc : P .escaped
+
+theorem Reactive.of_eq {P : Out → Prop} {p p' : Option Nat} (h : Reactive P p) (e : p' = p) : Reactive P p' := e ▸ h
 
 section
 variable {P : Out → Prop}
@@ -50,34 +52,35 @@ theorem oe_setAsn4 (s : Sess) (i : Nat) : OutsExt P s (s.setAsn4 i) := OutsExt.o
 theorem oe_bumpSent (s : Sess) (i : Nat) (g : Stats → Stats) : OutsExt P s (s.bumpSent i g) := OutsExt.of_same rfl
 theorem oe_bumpRecv (s : Sess) (i : Nat) (g : Stats → Stats) : OutsExt P s (s.bumpRecv i g) := OutsExt.of_same rfl
 
-variable (hP : Reactive P)
-include hP
-
-theorem oe_setSt (s : Sess) (v : St) : OutsExt P s (s.setSt v) := by
+theorem oe_setSt (s : Sess) (v : St) (hP : Reactive P s.proto) : OutsExt P s (s.setSt v) := by
   unfold Sess.setSt; split
   · exact (OutsExt.emit s _ hP.est).trans (oe_withSt _ _)
   · exact oe_withSt s v
 
-theorem oe_writeOn (s : Sess) (i : Nat) (b : Bytes) : OutsExt P s (s.writeOn i b) := by
+theorem oe_writeOn (s : Sess) (i : Nat) (b : Bytes) (hi : s.proto = some i) (hP : Reactive P s.proto) :
+    OutsExt P s (s.writeOn i b) := by
   unfold writeOn; split
-  · exact OutsExt.emit s _ (hP.write i b)
+  · exact OutsExt.emit s _ (hP.write i b hi)
   · exact OutsExt.refl P s
 
-theorem oe_sendNotification (s : Sess) (e sub : Nat) (d : Bytes) : OutsExt P s (s.sendNotification e sub d) := by
+theorem oe_sendNotification (s : Sess) (e sub : Nat) (d : Bytes) (hP : Reactive P s.proto) :
+    OutsExt P s (s.sendNotification e sub d) := by
   unfold sendNotification
   split
   · exact OutsExt.emit s _ hP.esc
-  · split
-    · exact (oe_bumpSent s _ _).trans (oe_writeOn hP _ _ _)
+  · rename_i i hi
+    split
+    · exact (oe_bumpSent s _ _).trans (oe_writeOn _ _ _ hi hP)
     · exact (oe_bumpSent s _ _).trans (OutsExt.emit _ _ hP.esc)
 
-theorem oe_sendKeepalive (s : Sess) : OutsExt P s (s.sendKeepalive) := by
+theorem oe_sendKeepalive (s : Sess) (hP : Reactive P s.proto) : OutsExt P s (s.sendKeepalive) := by
   unfold sendKeepalive
   split
   · exact OutsExt.emit s _ hP.esc
-  · exact (oe_bumpSent s _ _).trans (oe_writeOn hP _ _ _)
+  · rename_i i hi
+    exact (oe_bumpSent s _ _).trans (oe_writeOn _ _ _ hi hP)
 
-theorem oe_closeOn (s : Sess) (i : Nat) : OutsExt P s (s.closeOn i) := by
+theorem oe_closeOn (s : Sess) (i : Nat) (hP : Reactive P s.proto) : OutsExt P s (s.closeOn i) := by
   unfold closeOn
   split
   · exact ((oe_setPhase s i _).trans (oe_setDisconnected _ i)).trans (OutsExt.emit _ _ (hP.lose i))
@@ -85,76 +88,82 @@ theorem oe_closeOn (s : Sess) (i : Nat) : OutsExt P s (s.closeOn i) := by
     · exact oe_setDisconnected s i
     · exact OutsExt.refl P s
 
-theorem oe_closeConn (s : Sess) : OutsExt P s (s.closeConn) := by
+theorem oe_closeConn (s : Sess) (hP : Reactive P s.proto) : OutsExt P s (s.closeConn) := by
   unfold closeConn
   split
   · exact OutsExt.refl P s
-  · exact (oe_closeOn hP s _).trans (oe_withRetryCounter _ _)
+  · exact (oe_closeOn s _ hP).trans (oe_withRetryCounter _ _)
 
-theorem oe_errorClose (s : Sess) : OutsExt P s (s.errorClose) := by
+theorem oe_errorClose (s : Sess) (hP : Reactive P s.proto) : OutsExt P s (s.errorClose) := by
   unfold errorClose
-  exact (((oe_withTm s _).trans (oe_closeConn hP _)).trans (oe_incRetryCounter _)).trans (oe_setSt hP _ _)
+  have h1 : Reactive P (s.withTm { retry := none, hold := none, keepalive := none, idleHold := some s.idleDeadline }).proto := hP
+  have h2 : Reactive P ((s.withTm { retry := none, hold := none, keepalive := none, idleHold := some s.idleDeadline }).closeConn.incRetryCounter).proto :=
+    hP.of_eq (frm_closeConn 0 _).proto
+  exact (((oe_withTm s _).trans (oe_closeConn _ h1)).trans (oe_incRetryCounter _)).trans (oe_setSt _ _ h2)
 
-theorem oe_headerError (s : Sess) (sub : Nat) (d : Bytes) : OutsExt P s (s.headerError sub d) :=
-  (oe_sendNotification hP s _ _ _).trans (oe_errorClose hP _)
+theorem oe_headerError (s : Sess) (sub : Nat) (d : Bytes) (hP : Reactive P s.proto) : OutsExt P s (s.headerError sub d) :=
+  (oe_sendNotification s _ _ _ hP).trans (oe_errorClose _ (hP.of_eq (frm_sendNotification 0 s _ _ _).proto))
 
-theorem oe_openMessageError (s : Sess) (sub : Nat) : OutsExt P s (s.openMessageError sub) :=
-  (oe_sendNotification hP s _ _ _).trans (oe_errorClose hP _)
+theorem oe_openMessageError (s : Sess) (sub : Nat) (hP : Reactive P s.proto) : OutsExt P s (s.openMessageError sub) :=
+  (oe_sendNotification s _ _ _ hP).trans (oe_errorClose _ (hP.of_eq (frm_sendNotification 0 s _ _ _).proto))
 
 theorem oe_restartHold (s : Sess) : OutsExt P s (s.restartHold) := by
   unfold restartHold; split
   · exact oe_setHold s _
   · exact OutsExt.refl P s
 
-theorem oe_fsmErr (s : Sess) : OutsExt P s ((s.sendNotification C.errFsm 0 []).errorClose) :=
-  (oe_sendNotification hP s _ _ _).trans (oe_errorClose hP _)
+theorem oe_fsmErr (s : Sess) (hP : Reactive P s.proto) : OutsExt P s ((s.sendNotification C.errFsm 0 []).errorClose) :=
+  (oe_sendNotification s _ _ _ hP).trans (oe_errorClose _ (hP.of_eq (frm_sendNotification 0 s _ _ _).proto))
 
-theorem oe_fsmOpenReceived (s : Sess) : OutsExt P s (s.fsmOpenReceived) := by
+theorem oe_fsmOpenReceived (s : Sess) (hP : Reactive P s.proto) : OutsExt P s (s.fsmOpenReceived) := by
   unfold fsmOpenReceived
+  have hk : Reactive P ((s.setRetry none).sendKeepalive).proto := hP.of_eq (frm_sendKeepalive 0 (s.setRetry none)).proto
   split
-  · exact oe_errorClose hP s
-  · exact oe_errorClose hP s
+  · exact oe_errorClose s hP
+  · exact oe_errorClose s hP
   · split
-    · exact ((((oe_setRetry s none).trans (oe_sendKeepalive hP _)).trans (oe_setKeepalive _ _)).trans
-        (oe_setHold _ _)).trans (oe_setSt hP _ _)
-    · exact ((((oe_setRetry s none).trans (oe_sendKeepalive hP _)).trans (oe_setKeepalive _ _)).trans
-        (oe_setHold _ _)).trans (oe_setSt hP _ _)
-  · exact oe_fsmErr hP s
-  · exact oe_fsmErr hP s
+    · exact ((((oe_setRetry s none).trans (oe_sendKeepalive _ hP)).trans (oe_setKeepalive _ _)).trans
+        (oe_setHold _ _)).trans (oe_setSt _ _ hk)
+    · exact ((((oe_setRetry s none).trans (oe_sendKeepalive _ hP)).trans (oe_setKeepalive _ _)).trans
+        (oe_setHold _ _)).trans (oe_setSt _ _ hk)
+  · exact oe_fsmErr s hP
+  · exact oe_fsmErr s hP
   · exact OutsExt.refl P s
 
-theorem oe_fsmKeepaliveReceived (s : Sess) : OutsExt P s (s.fsmKeepaliveReceived) := by
+theorem oe_fsmKeepaliveReceived (s : Sess) (hP : Reactive P s.proto) : OutsExt P s (s.fsmKeepaliveReceived) := by
   unfold fsmKeepaliveReceived
   split
-  · exact (oe_restartHold hP s).trans (oe_setSt hP _ _)
-  · exact oe_restartHold hP s
-  · exact oe_errorClose hP s
-  · exact oe_errorClose hP s
-  · exact oe_fsmErr hP s
+  · exact (oe_restartHold s).trans (oe_setSt _ _ (hP.of_eq (frm_restartHold 0 s).proto))
+  · exact oe_restartHold s
+  · exact oe_errorClose s hP
+  · exact oe_errorClose s hP
+  · exact oe_fsmErr s hP
   · exact OutsExt.refl P s
 
-theorem oe_fsmUpdateReceived (s : Sess) : OutsExt P s (s.fsmUpdateReceived) := by
+theorem oe_fsmUpdateReceived (s : Sess) (hP : Reactive P s.proto) : OutsExt P s (s.fsmUpdateReceived) := by
   unfold fsmUpdateReceived
   split
-  · exact oe_restartHold hP s
-  · exact oe_errorClose hP s
-  · exact oe_errorClose hP s
-  · exact oe_fsmErr hP s
-  · exact oe_fsmErr hP s
+  · exact oe_restartHold s
+  · exact oe_errorClose s hP
+  · exact oe_errorClose s hP
+  · exact oe_fsmErr s hP
+  · exact oe_fsmErr s hP
   · exact OutsExt.refl P s
 
-theorem oe_fsmNotificationReceived (s : Sess) (e sub : Nat) : OutsExt P s (s.fsmNotificationReceived e sub) := by
+theorem oe_fsmNotificationReceived (s : Sess) (e sub : Nat) (hP : Reactive P s.proto) :
+    OutsExt P s (s.fsmNotificationReceived e sub) := by
   unfold fsmNotificationReceived
+  have hc : Reactive P ((s.setRetry none).closeConn).proto := hP.of_eq (frm_closeConn 0 (s.setRetry none)).proto
   split
   · split
-    · exact ((oe_setRetry s none).trans (oe_closeConn hP _)).trans (oe_setSt hP _ _)
-    · exact ((oe_setRetry s none).trans (oe_closeConn hP _)).trans (oe_setSt hP _ _)
-    · exact oe_errorClose hP s
-    · exact oe_errorClose hP s
-    · exact oe_errorClose hP s
+    · exact ((oe_setRetry s none).trans (oe_closeConn _ hP)).trans (oe_setSt _ _ hc)
+    · exact ((oe_setRetry s none).trans (oe_closeConn _ hP)).trans (oe_setSt _ _ hc)
+    · exact oe_errorClose s hP
+    · exact oe_errorClose s hP
+    · exact oe_errorClose s hP
     · exact OutsExt.refl P s
   · split
-    · exact oe_errorClose hP s
+    · exact oe_errorClose s hP
     · exact OutsExt.refl P s
 
 end
@@ -166,7 +175,7 @@ def isReport : Out → Bool
 
 def reports (l : List Out) : Nat := (l.filter isReport).length
 
-theorem reactive_nonReport : Reactive (fun o => isReport o = false) := ⟨fun _ _ => rfl, fun _ => rfl, rfl, rfl⟩
+theorem reactive_nonReport (p : Option Nat) : Reactive (fun o => isReport o = false) p := ⟨fun _ _ _ => rfl, fun _ => rfl, rfl, rfl⟩
 
 theorem reports_of_ext {s s' : Sess} (h : OutsExt (fun o => isReport o = false) s s') :
     reports s'.outs = reports s.outs := by
